@@ -45,6 +45,7 @@ structure Pub where
   surprised : Bool := false
   badServers : List Nat := []
   placed : List (Nat × Nat) := []  -- (server, shnum)
+  goal : List (Nat × Nat) := []    -- `self.goal` (server, shnum): no answer and no failure changes it
   deriving Repr
 
 /-- `len(self.writers)` -/
